@@ -294,3 +294,20 @@ func Main(prop string, f func(*Run)) {
 	f(r)
 	r.Finish()
 }
+
+// Exact returns a copy of b whose capacity equals its length (what make([]byte, n) and the decoders'
+// SetLen produce): a slice expression or append in the library that reaches beyond len then fails or
+// reallocates instead of silently using spare capacity.  append([]byte{}, b...) rounds the capacity up.
+func Exact(b []byte) []byte {
+	o := make([]byte, len(b))
+	copy(o, b)
+	return o
+}
+
+// ExactNil is Exact, but nil for an empty input (the result of append([]byte(nil), b...)).
+func ExactNil(b []byte) []byte {
+	if len(b) == 0 {
+		return nil
+	}
+	return Exact(b)
+}
